@@ -42,7 +42,8 @@ namespace occa {
       bool kernelHasValidReturnType(functionDeclStatement &kernelSmnt) {
         vartype_t &returnType = kernelSmnt.function().returnType;
 
-        if (*returnType.type != void_) {
+        if ((*returnType.type != void_)
+            || returnType.isPointerType()) {
           returnType.printError(
             "[@kernel] functions must have a [void] return type"
           );
